@@ -592,6 +592,8 @@ func c17configs(tier string) []cfg {
 		{Client: []string{"S:a:flag", "M:a:3"}},
 		{Client: []string{"M:a:3", "S:a:flag"}},
 		{Client: []string{"M:a:3", "U:a", "S:a:flag"}, Env: []string{"flag++"}},
+		// a mutation that re-uses the id of a subscription that has ended (the logger must not see a second Unsubscribe for it)
+		{Client: []string{"S:a:flag", "U:a", "M:a:3"}},
 	}
 	if tier == "thorough" {
 		out = append(out,
